@@ -20,7 +20,7 @@ PROBES = ["new_worker_alloc", "new_pair_alloc", "ineligible_zero_skill", "inelig
 
 
 def budget(tier):
-    return 8000 if tier == "quick" else 2500000
+    return 12000 if tier == "quick" else 2500000
 
 
 def gen(rng, tier):
